@@ -394,6 +394,7 @@ class Replay:
     def signature(self, o, want, got, field):
         sh = self.sh; t = self.tbl
         parts = [t, o["op"], field]
+        if t in ("lparams", "env", "eval") and o["op"] in ("params", "full_name", "str"): parts = [t, "params" if field in ("params", "name") else field]
         if got["out"] == "other": parts.append(got.get("kind", "?"))
         if t in ("lparams", "env", "eval"):
             parts.append(sh["pk"] + ("-shared" if sh.get("share") else ""))
@@ -414,8 +415,9 @@ def part_a(ctx, mods):
     for v in r.violations: ctx.violation("spec:%s" % v["name"], "SafeWrap.tla violates %s" % v["name"], v["trace"][:40])
     ctx.extra["safewrap_action_coverage"] = {a: r.coverage.get(a, [0, 0])[1] for a in ACTIONS_A}
     rejected = {}
-    for variant, inv in (("write_through", "DefaultIsOwnClass"), ("translate_all", "OwnPass"), ("latch_direct", "RefusalNeverEscapes")):
-        cfg = tracecheck._cfg("SafeWrap.cfg", {'Variant = "spec"': 'Variant = "%s"' % variant, "INVARIANT Emit": ""}, ctx.scratch, "safewrap_%s.cfg" % variant)
+    for variant, inv, tbls in (("write_through", "DefaultIsOwnClass", '"lparams", "env"'), ("translate_all", "OwnPass", '"learn"'), ("latch_direct", "RefusalNeverEscapes", '"learn", "calls"')):
+        cfg = tracecheck._cfg("SafeWrap.cfg", {'Variant = "spec"': 'Variant = "%s"' % variant, "INVARIANT Emit": "", "MaxLen = 3": "MaxLen = 2",
+                                               'Tables = {"lparams", "env", "eval", "learn", "calls"}': 'Tables = {%s}' % tbls}, ctx.scratch, "safewrap_%s.cfg" % variant)
         rv = tlc.run("SafeWrap", cfg, ctx.scratch, workers=8, timeout=900, seed=ctx.seed)
         ctx.add_tlc("SafeWrap variant %s" % variant, rv)
         names = sorted({v["name"] for v in rv.violations})
@@ -713,16 +715,16 @@ def part_b(ctx, mods):
     CobaContext.store.pop("experiment_seed", None)
     ctx.sample(traces[len(traces) // 2], limit=1)
 
-    # ---- validation by TLC
-    r0 = None
-    rej = tracecheck.validate(ctx, "IGL", "IGL.cfg", traces, name="igl_trace", workers=8)
+    # ---- validation by TLC (one run for all traces; the unexplained ones once more, together, with the Diag invariant)
     ctx.extra["igl_traces"] = len(traces)
-    seen = {e["e"] for t in traces for e in t["ev"]}
-    ctx.extra["igl_events_recorded"] = sorted(seen)
-    for i, reason, pos in rej:
-        report_rejected(ctx, traces[i], meta[i], reason)
+    ctx.extra["igl_events_recorded"] = sorted({e["e"] for t in traces for e in t["ev"]})
+    rej = igl_validate(ctx, traces, {}, "igl_trace")
+    ctx.traces += len(traces)
+    if rej:
+        wants = igl_diagnose(ctx, [traces[i - 1] for i in rej])
+        for k, i in enumerate(rej): report_rejected(ctx, traces[i - 1], meta[i - 1], wants.get(k + 1))
+    rejected_idx = {i - 1 for i in rej}
     # ---- the binding is not vacuous: the broken variants must reject recorded executions that the specification accepts
-    rejected_idx = {i for i, _, _ in rej}
     good = [t for i, t in enumerate(traces) if i not in rejected_idx]
     for variant, need in (("learn_reward", lambda t: len(t["ev"]) > 2), ("seed0_falsy", lambda t: t["mode"]["fmt"] == "pmf" and t["mode"]["sev"] == 0 and len(t["ev"]) > 2)):
         sub = [t for t in good if need(t)][:300]
@@ -744,26 +746,41 @@ def part_b(ctx, mods):
     ctx.extra["igl_corrupted_traces_rejected"] = "%d/%d" % (len(rj), len(sub))
 
 
-def validate_quiet(ctx, traces, subst, name):
-    """indices of the traces TLC does not accept (no diagnosis)"""
+def igl_validate(ctx, traces, subst, name):
+    """1-based indices of the traces TLC does not accept (tracecheck's batch idiom: {"acc": tid} lines)"""
     tf = os.path.join(ctx.scratch, name + ".json"); json.dump(traces, open(tf, "w"))
     cfg = tracecheck._cfg("IGL.cfg", subst, ctx.scratch, name + ".cfg")
     r = tlc.run("IGL", cfg, ctx.scratch, workers=8, env={"TRACE_FILE": tf}, timeout=1800, continue_=True)
     ctx.add_tlc(name, r)
     acc = {j["acc"] for j in r.json if isinstance(j, dict) and "acc" in j}
-    return [i for i in range(1, len(traces) + 1) if i not in acc]
+    bad = set()
+    for v in r.violations:            # an invariant violated inside a trace: the error trace names the tid
+        for ln in v["trace"]:
+            if "tid = " in ln:
+                try: bad.add(int(ln.split("tid = ")[1].split()[0]))
+                except Exception: pass
+    return [i for i in range(1, len(traces) + 1) if i not in acc or i in bad]
+validate_quiet = igl_validate
 
 
-def report_rejected(ctx, trace, m, reason):
-    """asks the spec what it waited for at the first unexplained event and names the differing fields"""
-    tf = os.path.join(ctx.scratch, "igl_diag.json"); json.dump([trace], open(tf, "w"))
+def igl_diagnose(ctx, traces):
+    """-> {1-based index: (position of the first unexplained event, what the spec waited for there)}"""
+    tf = os.path.join(ctx.scratch, "igl_diag.json"); json.dump(traces, open(tf, "w"))
     cfg = tracecheck._cfg("IGL.cfg", {"INVARIANT Accept": "INVARIANT Diag"}, ctx.scratch, "igl_diag.cfg")
-    r = tlc.run("IGL", cfg, ctx.scratch, workers=1, env={"TRACE_FILE": tf}, timeout=600, continue_=True)
-    ds = [j for j in r.json if isinstance(j, dict) and "want" in j]
-    if not ds:
-        ctx.violation("igl:trace-rejected", "%s   case=%s" % (reason, json.dumps(m, default=str)), dict(m, trace=trace)); return
-    d = max(ds, key=lambda j: (j["l"], j["want"].get("e") != "-"))
-    pos = d["l"]; want = d["want"]; evs = trace["ev"]
+    r = tlc.run("IGL", cfg, ctx.scratch, workers=8, env={"TRACE_FILE": tf}, timeout=1800, continue_=True)
+    best = {}
+    for j in r.json:
+        if not (isinstance(j, dict) and "want" in j): continue
+        key = (j["l"], j["want"].get("e") != "-")
+        if j["tid"] not in best or key > best[j["tid"]][0]: best[j["tid"]] = (key, j)
+    return {t: (b[1]["l"], b[1]["want"]) for t, b in best.items()}
+
+
+def report_rejected(ctx, trace, m, diag):
+    """names the field in which the first unexplained event differs from what the spec waited for"""
+    if not diag:
+        ctx.violation("igl:trace-rejected", "no behaviour of IGL.tla explains the trace   case=%s" % json.dumps(m, default=str), dict(m, trace=trace)); return
+    pos, want = diag; evs = trace["ev"]
     got = evs[pos - 1] if pos <= len(evs) else dict(e="(nothing)")
     if got["e"] == "raise":
         ctx.violation("igl:raises:%s:instead-of-%s" % (got["x"], want.get("e")), "SequentialIGL raised %s (%s) where the specification waits for '%s'   case=%s" % (got["x"], got.get("msg", ""), want.get("e"), json.dumps(m, default=str)),
@@ -771,8 +788,7 @@ def report_rejected(ctx, trace, m, reason):
     if got["e"] != want.get("e"):
         ctx.violation("igl:%s-instead-of-%s" % (got["e"], want.get("e")), "event #%d is %s where the specification waits for %s   case=%s" % (pos, json.dumps(got), json.dumps(want), json.dumps(m, default=str)),
                       dict(m, trace=trace, position=pos, want=want)); return
-    fields = sorted(k for k in want if got.get(k) != want[k])
-    if not fields: fields = ["?"]
+    fields = sorted(k for k in want if got.get(k) != want[k]) or ["?"]
     for f in fields:
         ctx.violation("igl:%s:%s" % (got["e"], f), "event #%d (%s of interaction %s): %s must be %s but is %s   case=%s" % (pos, got["e"], got.get("n", got.get("c")), f, json.dumps(want.get(f)), json.dumps(got.get(f)), json.dumps(m, default=str)),
                       dict(m, trace=trace, position=pos, want=want, field=f))
